@@ -389,6 +389,14 @@ func init() {
 				if !near(gf*(1-pf), gc*pf*act, c16Tol, gf, gc) {
 					k.fail("fine-fraction", "t=%d generatedFine=%g generatedCoarse=%g percentFine=%g activityFactor=%g", t, gf, gc, pfPct, act)
 				}
+				// The property's own clause ("fine + coarse material split by the model's fine fraction"), WITHOUT the
+				// activity factor: fine : coarse = propFine : (1-propFine). After GullyEndYear the code multiplies only the
+				// fine part by averageGullyActivityFactor, so the clause fails there whenever that factor ≠ 1 and both parts
+				// are present (Lean: gully_fine_fraction_after_end_year_counterexample). Own scope = known finding
+				// KF-C16-gully-activity-factor(-alt); the check above (with the factor) keeps guarding the code as written.
+				if yr > ge && !near(gf*(1-pf), gc*pf, c16Tol, gf, gc) {
+					k.fail("fine-fraction-after-end-year", "t=%d year=%g > GullyEndYear=%g: generatedFine/(generatedFine+generatedCoarse)=%g but GullyPercentFine/100=%g (averageGullyActivityFactor=%g applied to the fine part only; generatedFine=%g generatedCoarse=%g)", t, yr, ge, gf/(gf+gc), pf, af, gf, gc)
+				}
 				driver0 := q == 0 || ar == 0 || yr < yd
 				if alt {
 					driver0 = driver0 || al == 0
